@@ -44,6 +44,7 @@ pub fn gen(seed: u64, _tier: Tier) -> ScenarioSpec {
         spec.opts.skip_frames = true;
     }
     spec.opts.compute_hash = rng.chance(1, 4);
+    spec.knobs.insert("prelude".into(), gen_prelude(&mut rng, &[1, 2, 4, 5], 6));
     spec
 }
 
@@ -347,6 +348,7 @@ pub fn run(spec: &ScenarioSpec, ctx: &mut Ctx) -> Result<(), Violation> {
     ctx.probe_if(spec.recorder.teams, "teams on");
     ctx.shape("opts", spec.opts.skip_frames as u64 | (spec.opts.compute_hash as u64) << 1);
     ctx.probe_if(spec.opts.skip_frames, "Game Start/End read with skip_frames");
+    prelude(spec.knob("prelude"), spec.seed, &m, ctx);
     let Some(game) = s1_read(P, spec, &m, ctx, true)? else { return Ok(()) };
     check_start_end(P, &m, &spec.recorder, &game, ctx)?;
     ctx.rep.nontrivial = true;
